@@ -18,7 +18,7 @@ def liftPy (e : Except PyExc Str) : B Str :=
 /-- `NoteBlueprint.build()` for an optional blueprint: `Note(None)` has the empty text -/
 def buildNote : Option Str → B Str
   | none => pure []
-  | some raw => liftPy (norm raw)
+  | some raw => pure (norm raw)
 
 /-! ### numbers: `str(int(s))` and `repr(float(s))` on decimal literals -/
 
@@ -95,11 +95,9 @@ def splitComma : Str → List Str
 /-- `ColumnBlueprint.build`: type resolution against the enums already in the database -/
 def resolveType (enums : List Enum) (ty : Str) : B ColType := do
   let sn : Str × Str ←
-    if ty.contains '.' then
-      match splitDot ty with
-      | [s, n] => pure (s, n)
-      | _ => throw (.internal .ValueError)      -- `schema, name = self.type.split('.')`
-    else pure (PyDBML.lit "public", ty)
+    match splitDot ty with
+      | [s, n] => pure (s, n)                   -- `self.type.count('.') == 1`
+      | _ => pure (PyDBML.lit "public", ty)
   match enums.findIdx? (fun e => e.schema == sn.1 && e.name == sn.2) with
   | some i => pure (.enum i)
   | none => pure (.plain ty)
@@ -220,7 +218,7 @@ def buildGroup (db : Db) (g : GroupBp) : B Group := do
       if acc.contains i then throw (.lib "ValidationError")
       pure (acc ++ [i])) []
   let note ← match g.note with
-    | some raw => do pure (some (← liftPy (norm raw)))
+    | some raw => pure (some (norm raw))
     | none => pure none
   pure { name := g.name, items := items, comment := g.comment, note := note, color := g.color }
 
@@ -249,8 +247,7 @@ def buildDatabase (allowProps : Bool) (es : List Elem) : B Db := do
       if acc.any (·.name == gr.name) then throw (.lib "DatabaseValidationError")
       pure (acc ++ [gr])) []
   let sticky ← stickyBps.mapM fun s => do
-    let t ← liftPy (norm s.text)
-    pure ({ name := s.name, text := t } : Sticky)
+    pure ({ name := s.name, text := norm s.text } : Sticky)
   let project ← match projectBp with
     | some p => do
       let note ← buildNote p.note
